@@ -93,19 +93,19 @@ const (
 var BackendNames = []string{"mem", "fs", "fs-binary", "pg"}
 
 type Cfg struct {
-	OutputSize   uint32 `json:"output_size"`
-	CacheSize    uint32 `json:"cache_size"`
-	FlagCount    uint32 `json:"flag_count"`
-	Language     string `json:"language,omitempty"`
-	MenuSep      string `json:"menu_sep,omitempty"`
-	Backend      int    `json:"backend"`
-	FinishAlways bool   `json:"finish_always,omitempty"`  // call Finish also after a failed Exec/Flush
-	SetSession   bool   `json:"set_session,omitempty"`    // caller sets the session on the store handle (as examples/http does)
-	First        bool   `json:"first,omitempty"`          // every engine is built WithFirst(a benign scripted pre-VM function)
-	FirstContent string `json:"first_content,omitempty"`  // what that function returns ("-" = empty content; unset = "first")
-	ResetOnEmpty bool   `json:"reset_on_empty,omitempty"` // engine.Config.ResetOnEmptyInput
-	FinishLate   bool   `json:"finish_late,omitempty"`    // Finish is called once, when an engine is retired (as engine.Loop's defer), not after every request
-	SharePersister bool `json:"share_persister,omitempty"` // one persist.Persister (WithFlush) is reused for every engine of every session of the world
+	OutputSize     uint32 `json:"output_size"`
+	CacheSize      uint32 `json:"cache_size"`
+	FlagCount      uint32 `json:"flag_count"`
+	Language       string `json:"language,omitempty"`
+	MenuSep        string `json:"menu_sep,omitempty"`
+	Backend        int    `json:"backend"`
+	FinishAlways   bool   `json:"finish_always,omitempty"`   // call Finish also after a failed Exec/Flush
+	SetSession     bool   `json:"set_session,omitempty"`     // caller sets the session on the store handle (as examples/http does)
+	First          bool   `json:"first,omitempty"`           // every engine is built WithFirst(a benign scripted pre-VM function)
+	FirstContent   string `json:"first_content,omitempty"`   // what that function returns ("-" = empty content; unset = "first")
+	ResetOnEmpty   bool   `json:"reset_on_empty,omitempty"`  // engine.Config.ResetOnEmptyInput
+	FinishLate     bool   `json:"finish_late,omitempty"`     // Finish is called once, when an engine is retired (as engine.Loop's defer), not after every request
+	SharePersister bool   `json:"share_persister,omitempty"` // one persist.Persister (WithFlush) is reused for every engine of every session of the world
 }
 
 // ---------------------------------------------------------------------------------------
@@ -159,12 +159,14 @@ type Sess struct {
 	// LangSeen records the language observed on every lookup, in order.
 	Lookups     []Lookup
 	KeepLookups bool
+	// FailWriteThisRequest makes the writer handed to Flush fail (fault injection; cleared by Request).
+	FailWriteThisRequest bool
 	// FailTemplateThisRequest makes every template lookup of the next request fail (fault injection; cleared by Request).
 	FailTemplateThisRequest bool
 	// FailFirstNext makes the next call of the pre-VM function fail (fault injection); FirstFailed counts them.
 	FailFirstNext bool
 	FirstFailed   int
-	PosLog      []Pos // position after every request
+	PosLog        []Pos // position after every request
 }
 
 type Pos struct {
@@ -180,15 +182,15 @@ type Lookup struct {
 }
 
 type World struct {
-	App      *app.App
-	Cfg      Cfg
-	Rec      *Recorder
-	Sess     []*Sess
-	NewStore func(s *Sess) (db.Db, error)    // backend factory (fresh handle on the same durable medium)
-	Peek     func(s *Sess) (db.Db, error)    // independent handle for observation (does not disturb the session's handle)
-	ResFor   func(s *Sess) resource.Resource // optional override of the resource stack
-	Disk     *simfs.FS
-	Pg       *pgfake.Server
+	App           *app.App
+	Cfg           Cfg
+	Rec           *Recorder
+	Sess          []*Sess
+	NewStore      func(s *Sess) (db.Db, error)    // backend factory (fresh handle on the same durable medium)
+	Peek          func(s *Sess) (db.Db, error)    // independent handle for observation (does not disturb the session's handle)
+	ResFor        func(s *Sess) resource.Resource // optional override of the resource stack
+	Disk          *simfs.FS
+	Pg            *pgfake.Server
 	scratchDirs   []string // directories on the real file system that Close removes
 	sharedPe      *persist.Persister
 	sharedPeStore db.Db
@@ -563,7 +565,14 @@ func (s *Sess) Request(input []byte, fresh bool) *Step {
 	if okSoFar {
 		var buf bytes.Buffer
 		var ferr error
-		msg, at = Guard(func() { _, ferr = s.Eng.Flush(ctx, &buf) })
+		var wr io.Writer = &buf
+		if s.FailWriteThisRequest {
+			// injected fault: the connection to the client is gone when the page is written
+			wr = failingWriter{}
+			s.W.Fired["client_write_error"]++
+			s.W.Rec.Add(s.Idx, "Write", "", "FAULT")
+		}
+		msg, at = Guard(func() { _, ferr = s.Eng.Flush(ctx, wr) })
 		st.Flushed = true
 		if msg != "" {
 			st.Panic, st.PanicAt = msg, "Flush:"+at
@@ -612,6 +621,7 @@ func (s *Sess) Request(input []byte, fresh bool) *Step {
 	s.W.Rec.Add(s.Idx, "Done", fmt.Sprintf("cont=%v %s", st.Cont, res), st.Out)
 	s.cur = nil
 	s.FailTemplateThisRequest = false
+	s.FailWriteThisRequest = false
 	s.Steps = append(s.Steps, st)
 	pp, pi := s.Position()
 	s.PosLog = append(s.PosLog, Pos{pp, pi, len(s.CallLog)})
@@ -624,4 +634,11 @@ func (s *Sess) Position() ([]string, uint16) {
 		return nil, 0
 	}
 	return append([]string(nil), s.St.ExecPath...), s.St.SizeIdx
+}
+
+// failingWriter is a client connection that is gone.
+type failingWriter struct{}
+
+func (failingWriter) Write(p []byte) (int, error) {
+	return 0, fmt.Errorf("injected failure of the client connection")
 }
